@@ -66,13 +66,13 @@ theorem judged_rtType (N : Naming) (api : Api) (ns : String) (t : TypeDef) :
 theorem judged_stubAlias (N : Naming) (ns : String) (a : AliasDef) :
     (stubAlias N ns a).flatMap judgedItem =
       (JKind.validator, fmtClass N a.name ++ "_validator") ::
-        (if isUserTy (unwrapAliases a.ty) then [(JKind.aliasName, a.name)] else []) := by
+        (if isUserTy (unwrapAliases a.ty) then [(JKind.aliasName, fmtClass N a.name)] else []) := by
   by_cases h : isUserTy (unwrapAliases a.ty) <;> simp [stubAlias, h, judgedItem]
 
 theorem judged_rtAlias (N : Naming) (ns : String) (a : AliasDef) :
     (rtAlias N ns a).flatMap judgedItem =
       (JKind.validator, fmtClass N a.name ++ "_validator") ::
-        (if isUserTy (unwrapAliases a.ty) then [(JKind.aliasName, a.name)] else []) := by
+        (if isUserTy (unwrapAliases a.ty) then [(JKind.aliasName, fmtClass N a.name)] else []) := by
   by_cases h : isUserTy (unwrapAliases a.ty) <;> simp [rtAlias, h, judgedItem]
 
 theorem judgedSpec_congr (N : Naming) (ns : Namespace) (f g : String → String)
